@@ -830,7 +830,7 @@ func init() {
 			"retained root must be fully readable and re-executing + re-saving the round must give the same root and a complete state; the same failure is also played as a transient write error (the same trie and store objects retry the save once the store accepts writes again: a retry that reports success must leave a complete state). Case 7 saves values of exactly the size limit, one byte and 60 bytes less, and reads them from the store alone. A sixth of the histories instead keep ONE block-state trie object through all rounds (SetVersion per round, children merged into it, the growing pending set saved again every round, sometimes twice in a row) and re-read every saved root from the store alone after every save; at the end the trie is rebased onto the persistent store (SetNodeDB), must read the saved content, and a write through it must be complete on the store. non-trivial/distinct = distinct (history, round, crash index, root) points",
 		Cases: func(tier string) int {
 			if tier == "thorough" {
-				return 48000
+				return 32000
 			}
 			return 2000
 		},
